@@ -634,3 +634,7 @@ mod tests {
     }
     }
 }
+
+#[cfg(kani)]
+#[path = "/verif/harness/backend_node.rs"]
+pub(crate) mod verif_harness;
